@@ -275,7 +275,7 @@ func sibAccount(tgt, out int) account {
 	return ac
 }
 
-func buildFrameSpecs(nActions int) []frameSpec {
+func buildFrameSpecs(nActions int, quick bool) []frameSpec {
 	for t := 0; t < 3; t++ {
 		for o := 0; o < 3; o++ {
 			addrSib[t][o] = mkAddr(fmt.Sprintf("51b1%02x%02x", t+1, o+1))
@@ -295,6 +295,9 @@ func buildFrameSpecs(nActions int) []frameSpec {
 				y /= 4
 			}
 			for a := 0; a < nActions; a++ {
+				if n == 3 && quick && a != 0 {
+					continue // quick tier: chains of three frames only with the first action (SSTORE)
+				}
 				out = append(out, frameSpec{n: int8(n), kinds: ks, sibPos: -1, action: int8(a)})
 				for pos := 0; pos <= n; pos++ {
 					for sk := 0; sk < 4; sk++ {
@@ -365,7 +368,7 @@ func frameProg(fs frameSpec, acts []action) wrapperProg {
 
 func runFrames() {
 	acts := actions()
-	specs := buildFrameSpecs(len(acts))
+	specs := buildFrameSpecs(len(acts), r.Quick())
 	done := par.For(int64(len(specs)), 32, r.Expired, func(i int64) {
 		c := getCtx()
 		defer putCtx(c)
@@ -376,6 +379,7 @@ func runFrames() {
 		}
 	})
 	r.Add("frame_shape_programs", done)
+	r.Set("frame_shapes", "chains of n<=3 frames over {STATICCALL,CALL,DELEGATECALL,CALLCODE} x {no sibling | one frame (position 0..n) first makes a sibling call: 4 kinds x {trivial,storage,nested-STATICCALL} x {returns,reverts,fails}} x 10 actions (quick: n=3 with SSTORE only)")
 	if done < int64(len(specs)) {
 		r.NotExhaustive(fmt.Sprintf("deadline: frame shapes completed %d of %d", done, len(specs)))
 	}
